@@ -529,6 +529,21 @@ func TestC09(t *testing.T) {
 			}
 		}
 
+		// a frame with rows but no columns (GroupBy().Aggregate() without keys and aggregations): Len, the JSON records
+		// and String/ToCSV (which must at least not fail) describe the same number of rows
+		if rapid.IntRange(0, 9).Draw(t, "columnless") == 0 {
+			zc := d.QF.GroupBy().Aggregate()
+			if zc.Err == nil && len(zc.ColumnNames()) == 0 {
+				if msg := checkColumnlessJSON(zc); msg != "" {
+					t.Fatalf("observers of a column-less frame disagree: %s\n%s", msg, desc())
+				}
+				var cerr error
+				if perr := hx.Safely(func() { cerr = zc.ToCSV(&bytes.Buffer{}); _ = zc.String() }); perr != nil || cerr != nil {
+					t.Fatalf("ToCSV/String of a column-less frame with %d rows: panic %v, error %v\n%s", zc.Len(), perr, cerr, desc())
+				}
+			}
+		}
+
 		// (b) Equals
 		rebuild := hx.Build(tab)
 		if rebuild.Err != nil {
